@@ -216,6 +216,19 @@ def run(ctx):
                    witness=f'select * from a {jt.lower()} b on a.x = b.x')
     # set operations: see the interpreted table below (two operands and chains) --------------------------------------------------------------
     clause_table(ctx, cls, ps)
+    # comparison operators keep their meaning only if both operands are ordinary elements: C07's gateway table (every constant, NULL included, is one
+    # sa.literal) is re-run; a NULL element (sa.null()) makes SQLAlchemy write `= NULL` / `<> NULL` as IS [NOT] NULL, which selects different rows
+    from .. import core
+    from . import C07
+    sub = core.Ctx('C07', ctx.src, ctx.tier)
+    C07.check_value_gateway(sub, ctx.src.tree(FILE), cls)
+    nvg = sub.rules.get('C07.value-gateway', (0, 0))[0]
+    ctx.setcount('operand_gateway_rows', nvg)
+    ctx.floor('operand_gateway_rows', 40)
+    ctx.ob('C06.operand-elements', 'all', True, '')
+    for f in sub.findings:
+        ctx.ob('C06.operand-elements', f.construct, False, f'the operator keeps its SQL meaning only over ordinary literal elements: {f.msg}', file=f.file, line=f.line,
+               witness='select * from t where b = null')
     # nested set operations: the rendered expression must have the structure of the tree (each link keeps its own ALL flag)
     from ..interp import Interp, Obj, Raised, Env
     SA = {('Union', True): 'union', ('Union', False): 'union_all', ('Intersect', True): 'intersect', ('Intersect', False): 'intersect_all',
